@@ -4,7 +4,7 @@
 use super::*;
 use crate::op::verif_support::*;
 
-//@h {"id":"C10.K.placeholder","props":["C10","C03"],"tier":"quick","kind":"complete","timeout":600,"text":"the placeholder standing in for a missing inverse (InnerOp::default) reports zero successes and leaves the data bit-identical, for all f64 bits; through Op::apply in the direction that reaches it"}
+//@h {"id":"C10.K.placeholder","props":["C10","C03"],"tier":"quick","kind":"complete","timeout":1800,"text":"the placeholder standing in for a missing inverse (InnerOp::default) reports zero successes and leaves the data bit-identical, for all f64 bits; through Op::apply in the direction that reaches it"}
 #[kani::proof]
 #[kani::unwind(6)]
 fn c10_placeholder() {
